@@ -8,9 +8,11 @@
    model states compatible with the events so far: before each event it closes the set under hidden
    steps, then fires the event's labels with the real [Model.step]; the trace is accepted iff the
    set never becomes empty.  So an accepted trace is the projection of at least one run of the
-   model (over the instance with one caller per traced batch and no ForceMerge callers; read-only
-   calls and ForceMerge requests are not traced and therefore not part of the instance: they only
-   delay the closer, resp. make the merger plan, which the instance allows anyway). *)
+   model, over the instance with one caller per traced batch and one ForceMerge caller machine per
+   ForceMerge call the harness issued ([nfm]).  ForceMerge has no hook, so the ForceMerge callers'
+   steps and the merger's LMSendWatchFM / LMWaitFM are hidden steps (a request wakes the merger
+   without the persister's notification; with no request outstanding the monitor does not allow
+   that).  Read-only calls are not traced and not part of the instance: they only delay the closer. *)
 From Coq Require Import ZArith List Bool Arith PArith FMapPositive.
 From Verif Require Import Common.Bytes Extracted.Extracted Protocol.Model Protocol.Explore Protocol.Corr.
 Import ListNotations.
@@ -50,12 +52,40 @@ Definition hidden_step (s : state) (l : label) : option state :=
 
 Definition seen := PositiveMap.t unit.
 
+(* ---------- ForceMerge callers (untraced) ----------
+   ForceMerge has no hook of its own, so the steps of the ForceMerge caller machines are hidden.  The
+   instance contains [nfm] of them (the number of ForceMerge calls the harness issued).  Three sound
+   reductions keep the state sets small; each only REMOVES interleavings, so every state the monitor
+   holds is still reached by genuine [Model.step]s from [init]:
+   - the callers are interchangeable, so the next one to act is always the first that is still FStart;
+   - a caller's send (LFMSend) is delayed until the merger is about to receive it (LMSendWatchFM /
+     LMWaitFM): [fm_use] is that pair of steps.  (The send only fills forceMergeRequestCh, which
+     nobody but the merger reads.)
+   - what a caller does after the merger answered or exited (LFMDone, LFMWaitClose, LFMSendClose)
+     concerns no other process and is never needed: those steps are not taken.
+   States that differ only in HOW MANY callers have been used are the same for every process but the
+   unused callers; of such states the monitor keeps the one that used the fewest (it can do whatever
+   the others can), which is what the level-wise closure below computes. *)
+Definition is_fstart (f : fpc) : bool := match f with FStart => true | _ => false end.
+Definition used (s : state) : nat := length (filter (fun f => negb (is_fstart f)) (fms s)).
+
+Definition fm_use (s : state) : list state :=
+  let j := used s in
+  match run default_guards s [LFMSend j; LMSendWatchFM] with
+  | Some s' => [s']
+  | None => match run default_guards s [LFMSend j; LMWaitFM] with Some s' => [s'] | None => [] end
+  end.
+
+(* the key of a state up to the number of callers used *)
+Definition rkey (s : state) : positive :=
+  encode (set_mctrl (set_fms s []) (match mctrl s with CFM _ => CFM 0 | c => c end)).
+
 (* add the states not seen yet *)
 Fixpoint add_new (ss : list state) (sn : seen) (acc : list state) : seen * list state :=
   match ss with
   | [] => (sn, acc)
   | s :: rest =>
-      let k := encode s in
+      let k := rkey s in
       match PositiveMap.find k sn with
       | Some _ => add_new rest sn acc
       | None => add_new rest (PositiveMap.add k tt sn) (s :: acc)
@@ -65,22 +95,39 @@ Fixpoint add_new (ss : list state) (sn : seen) (acc : list state) : seen * list 
 Definition hidden_succs (s : state) : list state :=
   flat_map (fun l => match hidden_step s l with Some s' => [s'] | None => [] end) hidden_labels.
 
-(* closure of a set of states under hidden steps *)
-Fixpoint closure (fuel : nat) (front : list state) (sn : seen) (all : list state) : list state :=
+(* closure of a set of states under the hidden steps that use no further ForceMerge caller *)
+Fixpoint closure (fuel : nat) (front : list state) (sn : seen) (all : list state) : seen * list state :=
   match front with
-  | [] => all
+  | [] => (sn, all)
   | _ =>
       match fuel with
-      | O => all
+      | O => (sn, all)
       | S f =>
           let '(sn', next) := add_new (flat_map hidden_succs front) sn [] in
           closure f next sn' (next ++ all)
       end
   end.
 
-Definition close_set (ss : list state) : list state :=
-  let '(sn, ss') := add_new ss (PositiveMap.empty unit) [] in
-  closure 64 ss' sn ss'.
+(* level a: the states that have used a callers.  [front]: new states of this level; [later]: given
+   states of higher levels.  A state whose key was seen at a lower level is dropped. *)
+Fixpoint levels (fuel a : nat) (front later : list state) (sn : seen) (all : list state) : list state :=
+  match fuel with
+  | O => all
+  | S f =>
+      let '(sn1, lvl) := closure 64 front sn front in
+      let '(now, later') := partition (fun s => Nat.eqb (used s) (S a)) later in
+      let '(sn2, nxt) := add_new (flat_map fm_use lvl ++ now) sn1 [] in
+      match nxt, later' with
+      | [], [] => all ++ lvl
+      | _, _ => levels f (S a) nxt later' sn2 (all ++ lvl)
+      end
+  end.
+
+(* closure under all hidden steps; the result lists the states by increasing number of callers used *)
+Definition close_set (nfm : nat) (ss : list state) : list state :=
+  let '(zero, later) := partition (fun s => Nat.eqb (used s) 0) ss in
+  let '(sn, front) := add_new zero (PositiveMap.empty unit) [] in
+  levels (nfm + 2) 0 front later sn [].
 
 Definition count_c (f : cpc -> bool) (s : state) : Z := Z.of_nat (length (filter f (callers s))).
 Definition is_unpicked c := match c with CWaitPersisted false => true | _ => false end.
@@ -117,7 +164,7 @@ Definition ignored (e : pev) : bool :=
 Definition fire (e : pev) (ss : list state) : list state :=
   if ignored e then ss
   else
-    let cl := close_set ss in
+    let cl := close_set (match ss with s :: _ => length (fms s) | [] => 0 end) ss in
     let nxt := flat_map (fun s => match obs e s with
                                   | Some ls => match run default_guards s ls with Some s' => [s'] | None => [] end
                                   | None => []
@@ -138,8 +185,8 @@ Fixpoint accept (ss : list state) (evs : list pev) (n : nat) : nat * list state 
 Definition nbatches (evs : list pev) : nat :=
   length (filter (fun e => match e with EvSend _ => true | _ => false end) evs).
 
-Definition trace_ok (safe : bool) (evs : list pev) : bool :=
-  match snd (accept [init (repeat KBatch (nbatches evs)) 0 true safe] evs 0) with
+Definition trace_ok (safe : bool) (nfm : Z) (evs : list pev) : bool :=
+  match snd (accept [init (repeat KBatch (nbatches evs)) (Z.to_nat nfm) true safe] evs 0) with
   | [] => false
   | _ => true
   end.
@@ -148,14 +195,14 @@ Definition trace_ok (safe : bool) (evs : list pev) : bool :=
 Inductive case :=
 | CLog (logs : list (list oprec))
 | CCancel (n c k : Z) (cancelled : bool) (count_after : Z)
-| CTrace (safe : bool) (evs : list pev)
+| CTrace (safe : bool) (nfm : Z) (evs : list pev)   (* nfm = ForceMerge calls issued during the run *)
 | CMulti (cs : list case).
 
 Fixpoint check (c : case) : bool :=
   match c with
   | CLog logs => forallb log_ok logs
   | CCancel n c k b a => cancel_ok n c k b a
-  | CTrace safe evs => trace_ok safe evs
+  | CTrace safe nfm evs => trace_ok safe nfm evs
   | CMulti cs => forallb check cs
   end.
 
@@ -174,8 +221,8 @@ Fixpoint explain (c : case) : expl :=
   | CLog logs => XLog (filter (fun p => negb (log_ok (snd p))) (number 0%Z logs))
   | CCancel n c _ _ _ =>
       XCancel (collect (Z.to_nat XProtocol.check_done_every) (fun j => Nat.leb (Z.to_nat c) j) (Z.to_nat n))
-  | CTrace safe evs =>
-      let '(k, ss) := accept [init (repeat KBatch (nbatches evs)) 0 true safe] evs 0 in
+  | CTrace safe nfm evs =>
+      let '(k, ss) := accept [init (repeat KBatch (nbatches evs)) (Z.to_nat nfm) true safe] evs 0 in
       XTrace k (length evs) (nth_error evs k) (length ss)
   | CMulti cs => XMulti (map explain cs)
   end.
